@@ -134,6 +134,21 @@ def one(cases, rng, tier, d, rep, dtname):
         cases.append(Case(J("getitem", tt_tokens(x), 0, 1, "s", a, 1, b - a), impl, res_oracle(box, lambda a=a, b=b: dx[a:b]), "getitem/bare-slice/" + tag, True))
     box, impl = boxed(lambda x=x: x[...])
     cases.append(Case(J("clone", tt_tokens(x)), impl, res_oracle(box, lambda: dx), "getitem/ellipsis-only/" + tag, True))
+    # empty slices (stop 0, start == stop, start > stop) in every position: the mode becomes empty, the shape follows dense indexing
+    if d >= 2:
+        for es in (slice(None, 0), slice(0, 0), slice(1, 0), slice(N[0], None), slice(2, 2)):
+            for pos in sorted({0, d - 1}):
+                idx = tuple(es if q == pos else slice(None) for q in range(d))
+                box, impl = boxed(lambda x=x, idx=idx: x[idx])
+
+                def eorc(box=box, idx=idx):
+                    if "r" not in box:
+                        return "indexing with an empty slice raised"
+                    r = box["r"]
+                    want = list(dx[idx].shape)
+                    got = list(r.N) if isinstance(r, torchtt.TT) else list(r.shape)
+                    return None if got == want else "index %s: shape %s, dense indexing gives %s" % (idx, got, want)
+                cases.append(Case(None, impl, eorc, "getitem/empty-slice/pos%d/%s" % (pos, tag), True, desc="x[%s]" % (idx,)))
     # apply_mask
     rows = rng.randint(1, 5)
     idxs = [[rng.randrange(n) for n in N] for _ in range(rows)]
